@@ -350,7 +350,8 @@ class C06(Check):
                    "for observed-state tuples in every order (incl. non-model order), target_param subsets/orders, scalar/per-state/full spread, "
                    "and that the parameter values, x0 and initial time in force during integration are the supplied ones.  Typed units enumerate "
                    "what a real number cannot express: integer-typed observation times (array/list) with a fractional t0, int64 observations, "
-                   "and every accepted weight form (full matrix, per-state vector, single scalar).")
+                   "and every accepted weight form (full matrix, per-state vector, single scalar); a typed initial state (the caller's float64 array, Python ints, an int64 array) "
+                   "with inferred initial values, and the arrays handed in by the caller come back unchanged.")
     stubs = ["scipy.integrate.ode contract (measured buffer policy)", "np.linalg.eig fixed (constructor only)", "scipy.stats.poisson.logpmf closed form", "gammaln -> lgamma UF"]
     assumptions = ["integrator accuracy (C02's assumption)", "floats as reals", "valid domain (positive predictions/observations for likelihood losses)"]
 
